@@ -88,6 +88,11 @@ def fold_rule(prog, rep):
     rep.check(not rb, "FOLD", fi.short, "pulsetime passed through", f"`{pt}` is not re-bound", f"`{pt}` is re-bound (`{norm(rb[0]) if rb else ''}`) before it reaches heartbeat_merge: the fold no longer applies the merge rule at the caller's pulsetime", fi.loc(rb[0]) if rb else fi.loc())
     from ..rules_flow import early_returns
 
+    COPIES = (f"list({ev})", f"{ev}[:]", f"{ev}.copy()", f"copy({ev})", f"copy.copy({ev})", f"[*{ev}]", f"deepcopy({ev})", f"copy.deepcopy({ev})")
+    rbe = [d for d in local_defs(fi, ev) if not (isinstance(d, ast.Assign) and norm(d.value) in COPIES)]
+    reord = [n for n in walk_own(fi.node) if isinstance(n, ast.Call) and isinstance(n.func, ast.Attribute) and norm(n.func.value) == ev and n.func.attr in ("sort", "reverse", "remove", "insert", "clear", "extend", "append")]
+    bad = (rbe or reord or [None])[0]
+    rep.check(bad is None, "FOLD", fi.short, "the given list is folded as given", f"`{ev}` is not re-bound (other than to a plain copy), sorted, reversed or edited", f"`{norm(bad)[:70] if bad is not None else ''}`: the list that is folded is not the caller's list in the caller's order (re-ordered, filtered or otherwise re-built), so the result is not the left fold of the merge rule over the input: e.g. an earlier-starting element, which the rule never merges into its predecessor, is moved in front and fused", fi.loc(bad) if bad is not None else fi.loc())
     early_returns(prog, rep, "FOLD", fi, [ev], bound=2, what="the fold")
     rets = [n for n in walk_own(fi.node) if isinstance(n, ast.Return) and n is fi.node.body[-1]]
     if len(rets) != 1 or not isinstance(rets[0].value, ast.Name):
@@ -165,6 +170,8 @@ def check(prog, rep):
 
 H = "aw_transform/heartbeats.py"
 VARIANTS = [
+    ("B reduce folds a sorted copy of the input", H, "    reduced = []\n    if events:", "    events = sorted(events, key=lambda e: e.timestamp)\n    reduced = []\n    if events:", "FOLD"),
+    ("OK reduce folds a plain copy of the input", H, "    reduced = []\n    if events:", "    events = list(events)\n    reduced = []\n    if events:", "ok"),
     ("B fold skipped for pulsetime 0 (touching equal events still merge at pulsetime 0)", H, "    reduced = []\n", "    if len(events) < 2 or pulsetime <= 0:\n        return events\n    reduced = []\n", "FOLD"),
     ("OK fold skipped for fewer than two events", H, "    reduced = []\n", "    if len(events) < 2:\n        return events\n    reduced = []\n", "ok"),
     ("B lower bound strict", H, "last_event.timestamp <= heartbeat.timestamp <= pulseperiod_end", "last_event.timestamp < heartbeat.timestamp <= pulseperiod_end", "MERGE"),
